@@ -525,21 +525,28 @@ func (e *Engine) emitGreedy(p *partition, survivors *[]*run) []map[string]any {
 	if len(p.pending) == 0 {
 		return nil // 默认贪婪模式每事件调用：无在途匹配时短路，避免无用 map 分配
 	}
-	active := make(map[int64]bool, len(*survivors))
-	for _, r := range *survivors {
-		active[r.startSeq] = true
-	}
-	var ready []int64
+	starts := make([]int64, 0, len(p.pending))
 	for s := range p.pending {
-		if !active[s] && s >= p.nextStart {
-			ready = append(ready, s)
-		}
+		starts = append(starts, s)
 	}
-	sort.Slice(ready, func(i, j int) bool { return ready[i] < ready[j] })
+	sort.Slice(starts, func(i, j int) bool { return starts[i] < starts[j] })
 	var emitted []map[string]any
-	for _, s := range ready {
+	for _, s := range starts {
 		if s < p.nextStart {
 			continue // 被前一轮 SKIP 推进跳过（直接守卫，与 emitLazy 一致）
+		}
+		// Leftmost first: a start is settled only when no run that started at or before it is still
+		// alive (emitOne prunes the survivors, so look at them afresh). Emitting a later start while
+		// an earlier one can still complete would skip past the earlier, leftmost match.
+		settled := true
+		for _, r := range *survivors {
+			if r.startSeq <= s {
+				settled = false
+				break
+			}
+		}
+		if !settled {
+			break
 		}
 		best := p.pending[s][0]
 		emitted = append(emitted, e.emitOne(p, best, survivors)...)
